@@ -12,3 +12,4 @@ open UtilModel UtilModel.CContainer
 #print axioms UtilModel.CContainer.wait_parked_open_false
 #print axioms UtilModel.CContainer.wait_satisfied_enabled
 #print axioms UtilModel.CContainer.wait_quiescent_none_true
+#print axioms UtilModel.CContainer.C15_obs
